@@ -96,7 +96,7 @@ def strategy_(draw, tier):
         lines.append("\t".join(f))
         fasta.append(">%s\n%s\n" % (names[i], read))
     return {"gfa": gen_graph.gfa_text(g, with_seq=True, order_seed=draw(st.integers(0, 99))), "gaf": lines,
-            "fasta": "".join(fasta)}
+            "fasta": "".join(fasta), "final_newline": draw(st.integers(0, 3)) > 0}
 
 
 def strategy(tier):
@@ -172,9 +172,10 @@ def run_case(case):
     known = False
     with core.workdir() as d:
         core.write_text(d + "/g.gfa", case["gfa"])
-        core.write_text(d + "/u.gaf", "".join(l + "\n" for l in lines))
+        nl = "\n" if case.get("final_newline", True) else ""
+        core.write_text(d + "/u.gaf", "\n".join(lines) + nl)
         stable_lines = [to_stable_line(nodes, l) for l in lines]
-        core.write_text(d + "/s.gaf", "".join(l + "\n" for l in stable_lines))
+        core.write_text(d + "/s.gaf", "\n".join(stable_lines) + nl)
         # 1. view -n over every node that occurs
         r = idx.build_index(d + "/u.gaf", d + "/g.gfa", d + "/u.gvi")
         core.check(r[0] == "ok", "index failed: %s", r)
@@ -204,6 +205,9 @@ def run_case(case):
     cl = set()
     nontrivial = False
     import re
+
+    if not case.get("final_newline", True):
+        cl.add("no_final_newline")
 
     for l in lines:
         f = l.split("\t")
